@@ -133,17 +133,11 @@ class Chooser:
             return True
         s.push()
         s.add(extra)
-        import threading
-        t = threading.Timer(self.feas_timeout_ms / 1000.0 + 5.0, lambda: s.ctx.interrupt())   # z3 does not always honour its timeout
-        t.daemon = True
-        t.start()
         try:
             r = s.check()
         except z3.Z3Exception:
             r = z3.unknown
             self._solver = None
-        finally:
-            t.cancel()
         if self._solver is not None:
             s.pop()
         return r != z3.unsat
